@@ -20,6 +20,7 @@ STUBS = ["CrossHair's regex model for \\s+ on a symbolic str (violations are rep
 ALPHA = "ab \t\n 　"
 WS = " \t\n 　"
 ATTS = [{"fg": 31}, {"bold": True}, {"bg": 44, "fg": 31}]
+ATTS_NAMES = [{"fg": 31}, {"fg": 32}, {"fg": 31}]          # same attribute names, different values
 
 
 def instances(tier, seed):
@@ -38,6 +39,12 @@ def instances(tier, seed):
             for n0 in firsts:
                 out.append({"name": "wrap-K%d-c%d-n%d" % (K, cols, n0), "fn": "wrap", "timeout": T, "cost": 3 if (n0 or 0) >= 2 else 1,
                             "params": {"K": K, "cols": cols, "L": L if K else (4 if tier == "quick" else 6), "n0": n0}})
+    # two / three runs whose formatting has the same attribute names but different values (whitespace in each of them)
+    for K in (2, 3):
+        for cols in (3, 4):
+            for n0 in range(0, 3):
+                out.append({"name": "names-K%d-c%d-n%d" % (K, cols, n0), "fn": "wrap", "timeout": T, "cost": 3,
+                            "params": {"K": K, "cols": cols, "L": 4 if tier == "quick" else 5, "n0": n0, "layout": "names", "alpha": "a "}})
     # longer plain strings over {a, space}: over-long words that are not the first word, followed by short ones
     for n0 in ((7, 8) if tier == "quick" else (7, 8, 9, 10)):
         for cols in ((3,) if tier == "quick" else (2, 3, 4)):
@@ -72,7 +79,11 @@ def _build(t0, t1, t2):
     K = P["K"]
     if K == 0:
         return t0      # plain str input
-    return FmtStr(*[Chunk(t, a) for t, a in zip([t0, t1, t2][:K], ATTS)])
+    return FmtStr(*[Chunk(t, a) for t, a in zip([t0, t1, t2][:K], _atts())])
+
+
+def _atts():
+    return ATTS_NAMES if P.get("layout") == "names" else ATTS
 
 
 def reference(chars, attl, cols):
@@ -154,7 +165,7 @@ def wrap(t0: str, t1: str, t2: str) -> bool:
     for idx, t in enumerate(texts):
         for c in t:
             chars.append(c)
-            attl.append(disp(ATTS[idx]) if K else {})
+            attl.append(disp(_atts()[idx]) if K else {})
     lines = linesplit(x, cols)
     got = [[(c, disp(ch.atts)) for ch in ln.chunks for c in ch.s] for ln in lines]
     got = [g for g in got]
@@ -178,7 +189,7 @@ def concrete(fn, params, args):
     for idx, t in enumerate(texts):
         for c in t:
             chars.append(c)
-            attl.append(disp(ATTS[idx]) if K else {})
+            attl.append(disp(_atts()[idx]) if K else {})
     call = "linesplit(%r, %d)" % (x, cols)
     try:
         lines = linesplit(x, cols)
